@@ -91,6 +91,48 @@ def replay_h_family(record):
     return None
 
 
+def h_templates(k: int, names_i: int, shard=None) -> None:
+    """grammars that also use list / map templates: the verdict on recursion is the same, reported by the same exception"""
+    import ak.llparser as L
+    from vf.props.c05 import SYN, TOKENIZER
+    reject_unless(0 <= k < 8 and 0 <= names_i < 2)
+    k, names_i = realize(k), realize(names_i)
+    with concrete():
+        e, a, n = [("E", "A", "N"), ("Zz", "Bb", "Aa")][names_i]
+        shapes = [
+            ({e: [(e, "WORD"), ("LST",), ("MP",)]}, True),                                            # direct
+            ({e: [(a, "WORD"), ("LST",)], a: [(e, "NUM"), ("MP",)]}, True),                            # through another symbol
+            ({e: [(n, e, "WORD"), ("LST",), ("MP",)], n: [("NUM",), None]}, True),                     # hidden behind a nullable
+            ({e: [("WORD", e), ("LST",), ("MP",)]}, False),                                            # right recursion only
+            ({e: [(n, "WORD", e), ("LST",), ("MP",)], n: [("NUM",), None]}, False),
+        ]
+        prods, recursive = shapes[k % 5]
+        prods = dict(prods)
+        two_lists = k >= 5
+        prods["LST"] = L.ListProds("[", "WORD", ",", "]")
+        prods["MP"] = L.ListProds("{", "NUM", ",", "}") if two_lists else L.MapProds("{", "WORD", ":", "WORD", ",", "}")
+        what = f"productions { {s: (v if isinstance(v, list) else type(v).__name__) for s, v in prods.items()} }"
+        try:
+            p = L.LLParser(TOKENIZER, synonyms=dict(SYN), productions=prods, start_symbol_name=e)
+        except L.GrammarIsRecursive:
+            if not recursive:
+                raise Violation(f"false-recursive :: {what}: GrammarIsRecursive raised, but no symbol can reach itself without consuming a token")
+            return
+        except Exception as ex:  # noqa
+            raise Violation(f"{'wrong-exception' if recursive else 'raises'} :: {what}: the constructor raises {type(ex).__name__} "
+                            f"({'a left-recursive grammar is reported by GrammarIsRecursive' if recursive else 'the grammar is valid'}): {str(ex)[:200]}")
+        if recursive:
+            raise Violation(f"accepts-recursive :: {what}: left-recursive grammar accepted")
+        for text in ("a [ a , b ]", "a a { }", "[ ]"):
+            try:
+                with G.Fuel(20000):
+                    p.parse(text)
+            except G.FuelExhausted:
+                raise Violation(f"no-termination :: {what}: parse({text!r}) exceeds the step budget")
+            except L.ParsingError:
+                pass
+
+
 def jobs(tier: str) -> List[Job]:
     t = tier == "thorough"
     js = []
@@ -103,4 +145,5 @@ def jobs(tier: str) -> List[Job]:
                               budget_s=1500 if t else 110, label=f"family:{fam}:h0={h0}", must_exhaust=True))
         else:
             js.append(Job(__name__, "h_family", shard={"family": fam, "maxlen": MAXLEN[tier], "perms": perms}, budget_s=1500 if t else 110, label=f"family:{fam}", must_exhaust=True))
+    js.append(Job(__name__, "h_templates", shard={}, budget_s=100, label="grammars-with-templates", must_exhaust=True))
     return js
